@@ -1161,17 +1161,31 @@ def _levels(repo, col):
     ts = all_terms(idxm.expander(repo, fi))
     row = flt = None
     for t_ in ts:
-        row = row or T.find(t_, lambda x: x.op == "sub" and x.args[0].op == "param" and x.args[0].name == "children_row_and_col")
+        row = row or T.find(t_, lambda x: x.op == "sub" and (
+            (x.args[0].op == "param" and x.args[0].name == "children_row_and_col") or
+            (x.args[0].op == "mcall" and x.args[0].name in ("asarray", "array") and
+             T.find(x.args[0], lambda y: y.op == "param" and y.name == "children_row_and_col") is not None)))
         flt = flt or T.find(t_, lambda x: x.op == "cmp" and x.name == "==" and len(x.args) == 2 and
-                            any(a_.op == "sub" and a_.args[0].op == "param" and a_.args[0].name == "levels" for a_ in x.args))
+                            any((a_.op == "sub" and a_.args[0].op == "param" and a_.args[0].name == "levels") or
+                                (a_.op == "param" and a_.name == "levels") for a_ in x.args))
     if row is None or flt is None:
         col.unk(R, fi, "compute_children_in_level: row selection and level filter", "building blocks not found", node=fi.node)
     else:
-        lv_side = next(a_ for a_ in flt.args if a_.op == "sub" and a_.args[0].op == "param" and a_.args[0].name == "levels")
+        lv_side = next(a_ for a_ in flt.args if (a_.op == "sub" and a_.args[0].op == "param" and a_.args[0].name == "levels") or
+                       (a_.op == "param" and a_.name == "levels"))
         l_side = next(a_ for a_ in flt.args if a_ is not lv_side)
-        b_t = lv_side.args[1]
+        vector = lv_side.op == "param"
         try:
-            off = term_rat(row.args[1], lvl_leaf) - term_rat(b_t, lvl_leaf)
+            if vector:
+                # rows = table[np.where(levels == l)[0] - 1]: the branch indices are the positions where the filter holds
+                pos = T.find(row.args[1], lambda x: x.op == "sub" and x.args[1].op == "const" and x.args[1].name == 0 and
+                             T.find(x.args[0], lambda y: y.key() == flt.key()) is not None)
+                if pos is None:
+                    raise Und("positions of the filter not found in the row index")
+                off = term_rat(row.args[1], lambda x: Rat.atom("b") if x is pos else lvl_leaf(x)) - Rat.atom("b")
+            else:
+                b_t = lv_side.args[1]
+                off = term_rat(row.args[1], lvl_leaf) - term_rat(b_t, lvl_leaf)
             l_el = T.find(l_side, lambda x: x.op == "elem")
             rng = level_range(l_el) if l_el is not None else None
             if rng is not None:
@@ -1193,7 +1207,10 @@ def _levels(repo, col):
     ts = all_terms(idxm.expander(repo, fi))
     row = flt = None
     for t_ in ts:
-        row = row or T.find(t_, lambda x: x.op == "sub" and x.args[0].op == "param" and x.args[0].name == "parents_row_and_col")
+        row = row or T.find(t_, lambda x: x.op == "sub" and (
+            (x.args[0].op == "param" and x.args[0].name == "parents_row_and_col") or
+            (x.args[0].op == "mcall" and x.args[0].name in ("asarray", "array") and
+             T.find(x.args[0], lambda y: y.op == "param" and y.name == "parents_row_and_col") is not None)))
         flt = flt or T.find(t_, lambda x: x.op == "cmp" and x.name == "==" and len(x.args) == 2 and
                             any(a_.op == "sub" and a_.args[0].op == "param" and a_.args[0].name == "levels" for a_ in x.args))
     if row is None or flt is None:
@@ -1253,12 +1270,29 @@ def _levels(repo, col):
     # compute_children_and_parents: the branch-point of a child is the rank of its parent among the unique parents
     fi = repo.func(CUF, "compute_children_and_parents")
     src = unparse(fi.node)
-    i1 = src.find("child_belongs_to_branchpoint = remap_to_consecutive(par_inds)")
-    i2 = src.find("par_inds = np.unique(par_inds)")
-    col.add(R, fi, "child -> branch point: rank of the child's parent, computed before the parents are made unique",
-            "DISCHARGED" if 0 <= i1 < i2 else ("VIOLATED" if i1 >= 0 and i2 >= 0 else "UNDECIDED"),
-            "remap_to_consecutive(parent of each child), then np.unique" if 0 <= i1 < i2 else
-            "the mapping child -> branch point is computed from the already de-duplicated parents: children lose their branch point", node=fi.node)
+    exc_ = idxm.expander(repo, fi)
+    rr_ = exc_.merged_return()
+    cb = None
+    if rr_ is not None and rr_.op == "tuple" and len(rr_.args) >= 3:
+        cb = rr_.args[2]  # (child_inds, par_inds, child_belongs_to_branchpoint, ...)
+    for t_ in ([cb] if cb is not None else []):
+        pass
+    if cb is None:
+        col.unk(R, fi, "child -> branch point map", "third returned value not found", node=fi.node)
+    else:
+        per_child = T.find(cb, lambda x: (x.op == "call" and x.name == "remap_to_consecutive") or
+                           (x.op == "mcall" and x.name == "unique" and x.kw.get("return_inverse") is not None) or
+                           (x.op == "mcall" and x.name == "searchsorted"))
+        from_raw = per_child is not None and T.find(per_child, lambda x: x.op == "mcall" and x.name == "unique" and x is not per_child) is None
+        grouped = T.find(cb, lambda x: x.op == "mcall" and x.name == "repeat") is not None
+        col.add(R, fi, "child -> branch point: rank of the child's parent among the distinct parents, looked up PER CHILD",
+                "DISCHARGED" if (per_child is not None and from_raw) else ("VIOLATED" if (grouped or per_child is not None) else "UNDECIDED"),
+                "remap_to_consecutive(parent of each child)" if (per_child is not None and from_raw) else
+                (f"the map is built as {cb.short(100)}: repeating each branch point by its number of children assumes that the children of "
+                 f"one parent are listed consecutively; for parents such as [-1, 0, 0, 1, 2, 1] children attach to another parent's "
+                 f"branch point" if grouped else
+                 f"the map is computed from the already de-duplicated parents ({cb.short(80)}): children lose their branch point"),
+                node=fi.node)
     # within-branch edges: (i, i+1) and (i+1, i) for consecutive compartments -- on terms, so ranges written directly or as
     # slices of one list of the branch's compartments are the same thing
     from sa.termalg import term_rat as _tr
